@@ -3,19 +3,10 @@
 From Coq Require Import List String Bool Arith ZArith Lia.
 From Thunder Require Import Lib.Json Federation.Merge Federation.MergeProofsBase Federation.Normalize Federation.Planner
   Federation.PlannerProofs Federation.Executor Federation.ExecutorProofs Federation.NormalizeProofs Federation.FedBase
-  Federation.FedSem.
+  Federation.FedSem Federation.Premises.
 Import ListNotations.
 Open Scope string_scope.
 Open Scope list_scope.
-
-(** further decidable conditions on the federation: every service that serves a field of an object other than
-    Query can re-fetch it by (at least) its id; id and org are scalars; results of Query carry no __key *)
-Definition fed_ok2 (g : gschema) : bool :=
-  forallb (fun e => let '(ty, f, rty, owners) := e in
-     (String.eqb ty "Query" || forallb (fun o => existsb (String.eqb "id") (fkeys_of g ty o)) owners) &&
-     (negb (String.eqb f "id" || String.eqb f "org") || String.eqb ty "Query" ||
-      match rty with RScalar => true | _ => false end)) (g_fields g) &&
-  negb (existsb (String.eqb "Query") (g_keyed g)).
 
 Definition scalar_json (j : json) : Prop := match j with JArr _ | JObj _ => False | _ => True end.
 
